@@ -8,6 +8,7 @@ from engine.model import src, stmt_key, walk_no_nested, dotted
 from engine.util import attr_accesses, with_exprs, calls_with_nodes, where, own_nodes
 
 RULES = {
+    "R-12.10": "a transfer never keeps the writer slot: Inbound.__exit__ rolls back whatever transaction is still open, whether or not the final SOA was seen (the rule function of C13 R-13.2, run here directly because C13 adopts C12 rules)",
     "R-12.9": "readers never observe a partially applied (or rolled back) write on a B-tree zone: the writer edits a copy-on-write clone and never writes a node it shares with a published version (C19 R-19.1 adopted)",
     "R-12.8": "a `with zone.writer()` block always ends its transaction: Transaction.__exit__ commits iff no exception, otherwise rolls back - for every exception class (C10 R-10.4 adopted), so the write slot is released and the next waiter woken",
     "R-12.7": "inside the package a write transaction obtained from `.writer(...)` is entered by `with` at once, or kept on an object whose __exit__ ends it; when it is first bound to a local, no `raise`/`return` is reachable between the call and the `with` that ends it (the slot would stay taken and every later writer block for ever)",
@@ -285,6 +286,8 @@ def run(model, rep, tier):
     rep.share(model, "C07", {"R-07.8"}, "R-12.9", "committed rdatasets are copied into the version: a writer that mutates the rdataset object it passed in must not change what readers see")
     rep.share(model, "C19", {"R-19.1"}, "R-12.9", "btreezone.WritableVersion clones version.nodes and version.delegations; readers keep using the originals while the writer runs")
     rep.share(model, "C10", {"R-10.4", "R-10.5"}, "R-12.8", "versioned.Zone._end_write (slot release and wake-up) runs only from Transaction._end, reached from __exit__/commit/rollback")
+    from rules.c13 import check_inbound_exit
+    check_inbound_exit(model, rep, "R-12.10")
     rep.meta["explanation"] = (
         "Guarded-by analysis over the whole package for the six admission/retention fields of dns.versioned.Zone, call-site check of the "
         "*_unlocked convention, transitive no-blocking-under-lock check, and CFG (post-)dominance rules for admission test, wake-up "
